@@ -16,6 +16,9 @@ func init() {
 			{ID: "C01-R1", Doc: "a line source advances before it reads", Run: c01r1},
 			{ID: "C01-R2", Doc: "side-effecting operators see every read exactly once", Run: c01r2},
 			{ID: "C12-R5", Doc: "result rows are concatenated in shard order (shared)", Run: c12r5},
+			{ID: "C09-R9", Doc: "rows taken out of a combining frame are never dropped (shared)", Run: c09r9},
+			{ID: "C10-R4", Doc: "merging readers (cogroup, reduce, sort) repair their heap after every cursor move (shared)", Run: c10r4},
+			{ID: "C05-R7", Doc: "memoised compilations are keyed by every partitioning field (shared)", Run: c05r7},
 		},
 	})
 }
